@@ -167,6 +167,10 @@ func (fc *fctx) externalCall(callee *ssa.Function, args []*Val, cc *ssa.CallComm
 		tr.callArgs = append(tr.callArgs, tr.pointersIn(a, 0)...)
 	}
 	tr.warn("%s: external %s without contract: everything havocked", fnKey(fc.fn), key)
+	// the function under contract left the modelled subset: say so as an obligation of its own instead of leaving it to
+	// the vacuity check (what follows an unmodelled call is not meaningful)
+	tr.oblige("subset", "subset/"+fnKey(fc.fn)+"/unmodelled-external/"+sanitize(key), "false", pos, tr.topProps,
+		"call of "+key+", a dependency function without an assumed contract: the code left the subset the contracts were written for")
 	tr.trusted["unmodelled external "+key+" (havocs all memory, arbitrary results)"] = true
 	tr.havocAll()
 	return fc.freshResults(callee.Signature.Results(), "x")
